@@ -46,6 +46,7 @@ class Ctx:
         self._nadded = [0, 0]
         self.prefix = list(prefix)
         self.pos = 0
+        self.depth = 0
         self.work = []
         self.nfresh = 0
         self.queries = 0
@@ -110,23 +111,29 @@ class Ctx:
             return True
         if z3.is_false(c):
             return False
-        if self.pos >= self.MAX_DEPTH:
+        # prefix entries: 0/1 = decision at a genuine fork, 2/3 = forced decision (only one side feasible).  Only genuine
+        # forks count towards MAX_DEPTH (a 257-byte string formatted byte by byte makes hundreds of forced decisions);
+        # a hard cap on all decisions stops runaway loops
+        if self.depth >= self.MAX_DEPTH or self.pos >= 40 * self.MAX_DEPTH:
             raise PathAbort("depth-cap")
         if self.pos < len(self.prefix):
-            d = self.prefix[self.pos]
+            e = int(self.prefix[self.pos])
         else:
             rt = self.feasible(c)
             if rt == "unsat":
-                d = False
+                e = 2
             else:
                 rf = self.feasible(z3.Not(c))
                 if rf == "unsat":
-                    d = True
+                    e = 3
                 else:
-                    d = True
-                    self.work.append(self.prefix[:self.pos] + [False])
-            self.prefix = self.prefix[:self.pos] + [d]
+                    e = 1
+                    self.work.append(self.prefix[:self.pos] + [0])
+            self.prefix = self.prefix[:self.pos] + [e]
         self.pos += 1
+        if e < 2:
+            self.depth += 1
+        d = bool(e & 1)
         self.pc.append(c if d else z3.Not(c))
         return d
 
@@ -230,7 +237,7 @@ def explore(fn, max_paths=400, allowed_exc=(Exception,)):
     """run fn(ctx) once per feasible path.  Returns (results, stats)."""
     results = []
     work = [[]]
-    stats = dict(paths=0, infeasible=0, truncated=0, leftover=0, queries=0, solver_s=0.0, unsupported=0)
+    stats = dict(paths=0, infeasible=0, truncated=0, leftover=0, queries=0, solver_s=0.0, unsupported=0, capped=0)
     while work:
         if stats["paths"] >= max_paths:
             stats["leftover"] = len(work)
@@ -247,6 +254,8 @@ def explore(fn, max_paths=400, allowed_exc=(Exception,)):
                 stats["infeasible"] += 1
             else:
                 stats["truncated"] += 1
+                if e.why == "depth-cap":
+                    stats["capped"] += 1
                 ctx.notes.append("cut: " + e.why)
         except EngineUnsupported as e:
             stats["unsupported"] += 1
